@@ -1175,6 +1175,8 @@ func (w *verifC18Wallet) scripted(kind string) error {
 		return chain.ErrUnimplemented
 	case "missing":
 		return chain.ErrMissingInputs
+	case "toolong":
+		return chain.ErrMempoolChainTooLong
 	default:
 		return errors.New("verif: scripted backend failure")
 	}
@@ -1890,6 +1892,11 @@ type verifC18RGReq struct {
 	sub     <-chan *BumpResult
 	out     chan *BumpResult
 	monGone bool // the sweeper's monitor goroutine of this request has returned
+
+	// lifecycle unit (c18life_test.go)
+	rid       uint64  // the publisher's request id
+	memBud    []int64 // per member: the budget the caller had attached when the request was built
+	deadlineH int32   // the deadline the caller had attached to all members (0: none / default / mixed)
 }
 
 type verifC18RGHanded struct {
@@ -1983,6 +1990,9 @@ type verifC18RG struct {
 	evlog    []verifC18RGEvent
 	events   map[string]int
 	resetCls int
+
+	life   *verifC18Life  // lifecycle unit only (c18life_test.go)
+	qByRID map[uint64]int // publisher request id -> request index
 }
 
 // verifC18ResetClassCap bounds how often one process reports each of the
@@ -2017,7 +2027,12 @@ func (g *verifC18RG) witness() any {
 		rs = append(rs, rq{q.members, q.height, int64(q.req.Budget), q.sumBud, q.req.DeadlineHeight,
 			fmt.Sprintf("%v", q.req.StartingFeeRate), q.weight, q.ceil, q.req.Immediate, len(q.req.Inputs)})
 	}
-	return map[string]any{"case": g.c, "requests": rs, "handed": g.log, "results": g.evlog}
+	w := map[string]any{"case": g.c, "requests": rs, "handed": g.log, "results": g.evlog}
+	if g.life != nil {
+		w["case"] = g.life.c
+		w["lifecycle"] = g.life.oplog
+	}
+	return w
 }
 
 // verifC18ModelWeight is the BIP-141 weight of a sweep transaction spending
@@ -2088,6 +2103,15 @@ func (g *verifC18RG) judgeOffer(qi int, rate int64, what string) {
 		if g.lastKind[m] != "carried" {
 			key += "+prev=" + g.lastKind[m]
 		}
+		if g.life != nil {
+			// lifecycle unit: decreases the caller itself brought about
+			// (see verifC18Life.callerClass) are diagnostics.
+			if c := g.life.callerClass(m); c != "" {
+				g.vc.Count("life_decrease_"+c, 1)
+				g.vc.Diag("life_decrease_"+c, fmt.Sprintf("%s: %s offers %d, input %d was at %d (%s)", key, what, rate, m, prev, g.lastKind[m]))
+				continue
+			}
+		}
 		if g.lowered[m] && !g.zeroed[m] {
 			// fingerprint class: a failed attempt (of a grouping
 			// with a lower ceiling) reported a retry rate below
@@ -2152,7 +2176,12 @@ func (g *verifC18RG) Broadcast(req *BumpRequest) <-chan *BumpResult {
 		}
 		g.reqOf[in.OutPoint()] = qi
 		q.members = append(q.members, m)
-		q.sumBud += g.c.Inputs[m].Budget
+		bud := g.c.Inputs[m].Budget
+		if g.life != nil {
+			bud = g.life.bud[m]
+		}
+		q.memBud = append(q.memBud, bud)
+		q.sumBud += bud
 		if sp := g.c.Inputs[m]; sp.ParentW > 0 {
 			if pr := verifC18ParentRate(sp.ParentW, sp.ParentFee); q.parents == 0 || pr < q.minPar {
 				q.minPar = pr
@@ -2217,6 +2246,15 @@ func (g *verifC18RG) Broadcast(req *BumpRequest) <-chan *BumpResult {
 	if int64(req.MaxFeeRate) != maxKW {
 		vc.Diag("regroup_request_max_fee_rate_differs_from_config",
 			fmt.Sprintf("request %d, configured %d", req.MaxFeeRate, maxKW))
+	}
+	// the id the publisher is about to give this request (nothing else
+	// calls its Broadcast, and none of its goroutines runs right now).
+	q.rid = g.tp.requestCounter.Load() + 1
+	if g.qByRID != nil {
+		g.qByRID[q.rid] = qi
+	}
+	if g.life != nil {
+		g.life.onRequest(q)
 	}
 	g.mu.Unlock()
 
@@ -2307,6 +2345,10 @@ func (g *verifC18RG) pump() {
 		sort.SliceStable(resps, func(i, j int) bool { return lead(resps[i]) < lead(resps[j]) })
 		for _, resp := range resps {
 			g.observe(resp)
+			if g.life != nil {
+				// the collector's loop top.
+				g.s.updateSweeperInputs()
+			}
 			if err := g.s.handleBumpEvent(resp); err != nil {
 				g.vc.Count("regroup_handle_bump_event_errors", 1)
 				msg := err.Error()
@@ -2325,6 +2367,7 @@ func (g *verifC18RG) observe(resp *bumpResp) {
 	defer g.mu.Unlock()
 	r := resp.result
 	var members []int
+	var deadReq *verifC18RGReq
 	for _, in := range resp.set.Inputs() {
 		m, ok := g.byOp[in.OutPoint()]
 		if !ok {
@@ -2334,9 +2377,20 @@ func (g *verifC18RG) observe(resp *bumpResp) {
 		var q *verifC18RGReq
 		if qi, ok := g.reqOf[in.OutPoint()]; ok {
 			q = g.reqs[qi]
-			if r.Event == TxFailed || r.Event == TxFatal || r.Event == TxUnknownSpend {
-				q.dead = true
+		}
+		if g.life != nil {
+			// an input may be in several requests: the publisher's
+			// request id names the one this result is about.
+			q = nil
+			if qi, ok := g.qByRID[r.requestID]; ok {
+				q = g.reqs[qi]
 			}
+		}
+		if q != nil && (r.Event == TxFailed || r.Event == TxFatal || r.Event == TxUnknownSpend ||
+			r.Event == TxConfirmed) {
+
+			q.dead = true
+			deadReq = q
 		}
 		// Fingerprint classes (see judgeOffer). Kept narrow, so that
 		// other ways of losing the rate stay unclassified:
@@ -2355,6 +2409,9 @@ func (g *verifC18RG) observe(resp *bumpResp) {
 
 			g.lowered[m] = true
 		}
+	}
+	if g.life != nil && deadReq != nil {
+		g.life.onDead(deadReq)
 	}
 	g.judgeGaveUp(resp, members)
 	g.vc.Count("regroup_results_"+r.Event.String(), 1)
@@ -2382,6 +2439,9 @@ func (g *verifC18RG) judgeGaveUp(resp *bumpResp, members []int) {
 		return
 	}
 	qi, ok := g.reqOf[g.ops[members[0]]]
+	if g.life != nil {
+		qi, ok = g.qByRID[r.requestID]
+	}
 	if !ok {
 		return
 	}
@@ -2435,7 +2495,16 @@ func (g *verifC18RG) judgeTx(via string, tx *wire.MsgTx, script []string, calls 
 			}
 		}
 	}
-	answer := verifC18Answer(script, lead, calls)
+	ambiguous := false
+	var answer string
+	if g.life != nil {
+		if k, amb := g.life.resolve(tx); k >= 0 {
+			qi, ambiguous = k, amb
+		}
+		answer = g.life.answer(via, lead)
+	} else {
+		answer = verifC18Answer(script, lead, calls)
+	}
 	if qi < 0 {
 		vc.Diag("regroup_tx_without_population_input", via)
 		return nil
@@ -2466,6 +2535,18 @@ func (g *verifC18RG) judgeTx(via string, tx *wire.MsgTx, script []string, calls 
 	for _, inp := range q.req.Inputs {
 		if seen[inp.OutPoint()] != 1 {
 			missing++
+		}
+	}
+	if g.life != nil {
+		// the budgets the caller had attached when the request was built.
+		sumBud = 0
+		for i, m := range q.members {
+			if seen[g.ops[m]] == 1 {
+				sumBud += q.memBud[i]
+			}
+		}
+		if ambiguous && g.life.ambBud > sumBud {
+			sumBud = g.life.ambBud
 		}
 	}
 	if missing > 0 || unknown || len(tx.TxIn) != len(q.req.Inputs) {
@@ -2525,7 +2606,11 @@ func (g *verifC18RG) judgeTx(via string, tx *wire.MsgTx, script []string, calls 
 	}
 
 	// offered rate never below what an input was already offered at.
-	if nominal >= 0 {
+	if ambiguous {
+		// two live requests with the same inputs and no change output
+		// to tell them apart (lifecycle unit).
+		vc.Count("life_txs_of_ambiguous_request", 1)
+	} else if nominal >= 0 {
 		g.judgeOffer(qi, nominal, "tx")
 		kind := "mempool-test"
 		if via == "publish" {
@@ -2537,9 +2622,15 @@ func (g *verifC18RG) judgeTx(via string, tx *wire.MsgTx, script []string, calls 
 		for _, m := range q.members {
 			g.last[m], g.lastKind[m] = nominal, kind
 			g.zeroed[m], g.lowered[m] = false, false
+			if g.life != nil {
+				g.life.callerReset[m] = false
+			}
 		}
 	} else {
 		vc.Diag("regroup_tx_without_fee_function", via)
+	}
+	if g.life != nil {
+		g.life.onTx(via, answer, qi, tx, nominal)
 	}
 
 	vc.Count("regroup_answers_"+via+"_"+answer, 1)
@@ -2558,6 +2649,10 @@ func (g *verifC18RG) judgeTx(via string, tx *wire.MsgTx, script []string, calls 
 
 // thirdPartySpend lets the chain notifier report a foreign spend of input k.
 func (g *verifC18RG) thirdPartySpend(k int) {
+	if g.life != nil {
+		g.life.foreignSpend([]int{k}, false)
+		return
+	}
 	sp := wire.NewMsgTx(2)
 	sp.AddTxIn(&wire.TxIn{PreviousOutPoint: g.ops[k]})
 	sp.AddTxOut(&wire.TxOut{Value: 1000, PkScript: append([]byte{0x00, 0x14}, make([]byte, 20)...)})
